@@ -33,7 +33,8 @@
 //          TRAITS                         -> "I <callback class> <is_dummy<class>::value>" ..., "IEND"
 //          NEEDS <method> ...             -> "N <method> <needs_kernel needs_distance needs_features as 0/1>" ..., "NEND"
 //          RUN id=<n> m=<method> fam=<M|E|U|O> back=<eigen|hand|pre> src=<eigen|hand> order=<str> entry=<range|using>
-//              d=<int> k=<int> seed=<int> nm=<brute|vptree|covertree> em=<dense|randomized> wd=<s> [..]
+//              d=<int> k=<int> seed=<int> nm=<brute|vptree|covertree> em=<dense|randomized> wd=<s> [off=<shift of
+//              the index sequence, fam U/Y only>] [..]
 // Output:  C <id>                          marker before the call
 //          R <id> OK <rows> <cols> <hex...> | <12 counters role-major K,D,F x kernel,distance,vector,dimension> <obj_as_index>
 //          R <id> EXC <type> | <counters> | <message>
@@ -149,9 +150,13 @@ struct Obj
         return decoy;
     }
 };
+// fam U / Y: the index sequence may be SHIFTED (element i of the data is the integer i + g_index_offset) and the
+// hand-written callbacks undo the shift: code that uses the dereferenced iterator as an index (instead of
+// iterator - begin) then reads the wrong sample even though the objects are integers
+static IndexType g_index_offset = 0;
 static inline IndexType index_of(IndexType i)
 {
-    return i;
+    return i - g_index_offset;
 }
 static inline IndexType index_of(const Obj& o)
 {
@@ -608,11 +613,12 @@ int main()
         int wd = kv.count("wd") ? atoi(kv["wd"].c_str()) : 20;
         unsigned seed = (unsigned)atol(kv["seed"].c_str());
 
+        g_index_offset = (fam == "U" || fam == "Y") && kv.count("off") ? (IndexType)atoi(kv["off"].c_str()) : 0;
         std::vector<IndexType> idx(N);
         std::vector<Obj> objs(N);
         for (int i = 0; i < N; i++)
         {
-            idx[i] = i;
+            idx[i] = i + g_index_offset;
             objs[i].key = 1000 + 7L * i;
             objs[i].decoy = N - 1 - i;
         }
